@@ -14,7 +14,7 @@ EXPLANATION = ("aryule (real CORRELATION + real LEVINSON), the least-squares fit
 BOUNDS = {
     "quick": "identities: N<=4, p<=3 real; N<=3, p<=2 complex. positivity/|k|<1 for all x != 0: (N,p) in {(2,1),(3,1),(3,2)} real, (2,1) complex. "
              "root query p<=2 (N=3). lstsq route N<=4,p<=2. lpc m in {2,3} (FFT length 4, 8), p<=2",
-    "thorough": "identities: N<=5, p<=3 real, N<=4, p<=2 complex; positivity adds (4,1),(4,2),(4,3) real, (3,1) complex; lpc m<=4",
+    "thorough": "identities: N<=5, p<=3 real, N<=4, p<=2 complex; positivity adds (4,1) real (larger positivity cases do not decide within 900 s and are not claimed); lpc m<=4",
 }
 ASSUMPTIONS = ["floats modelled as exact reals", "data not identically zero (for the inequality clauses)",
                "lstsq = exact normal equations, full column rank assumed", "fft/ifft = DFT definition (lpc)"]
@@ -125,15 +125,15 @@ def cases(tier, seed):
                                 timeout=60 if q else 300, max_paths=16, feas_timeout=3))
     pos = [(2, 1, False), (3, 1, False), (3, 2, False), (2, 1, True)]
     if not q:
-        pos += [(4, 1, False), (4, 2, False), (4, 3, False), (3, 1, True)]
+        pos += [(4, 1, False)]       # (4,2), (4,3) real and (3,1) complex: solver unknown after 900 s - not claimed
     for N, p, cplx in pos:
         out.append(Case("positive:%s:N=%d:p=%d" % ('cx' if cplx else 're', N, p), case_positive, dict(N=N, p=p, cplx=cplx),
                         timeout=120 if q else 900, max_paths=16, feas_timeout=5))
-    for N, p, cplx in ([(3, 1, False), (2, 1, True)] if q else [(3, 1, False), (2, 1, True), (3, 1, True)]):
+    for N, p, cplx in [(3, 1, False), (2, 1, True)]:
         out.append(Case("roots:%s:N=%d:p=%d" % ('cx' if cplx else 're', N, p), case_roots, dict(N=N, p=p, cplx=cplx),
                         timeout=120 if q else 900, max_paths=16, feas_timeout=5))
     from .common import case_schur_cohn_lemma
-    for p, cplx in ([(1, False), (2, False), (1, True)] if q else [(1, False), (2, False), (3, False), (1, True), (2, True)]):
+    for p, cplx in [(1, False), (2, False), (1, True)]:
         out.append(Case("schur-cohn-lemma:%s:p=%d" % ('cx' if cplx else 're', p), case_schur_cohn_lemma,
                         dict(p=p, cplx=cplx), lemma=True, timeout=120 if q else 900))
     for cplx in (False, True):
